@@ -1,8 +1,43 @@
 // Command c13 runs the sniproxy wire codec of /repo (built with -tags verif)
 // on generated frames and prints what it observed, one JSON line per case.
+//
+// Usage-pattern audit (round 3): the entry points of the codec, what they are
+// handed by their callers, and which stream uses them how.
+//
+//  entry point / supplied object        | shapes                                       | exercised by
+//  -------------------------------------+----------------------------------------------+--------------------------------------------
+//  decoder over an io.Reader            | reader returns everything at once / 1 byte / | every dec/start stream with "shape" (fixed:
+//   (SUPPLIED by the websocket layer;   | half / <= 7 bytes per Read / (0, nil) in     | all schemas x 6 shapes x {well-formed, 1 and
+//   io.ReadFull, io.CopyN and the raw   | between / the last bytes TOGETHER with       | 1030 trailing bytes, cut by one, cut in half};
+//   Read loop of end() see it)          | io.EOF                                       | 1/3 of the random cases) [new, hook verif_readers.go]
+//  decoder state: err sticky, n, tail   | error in field k, later fields read as zero  | prefix (multi-field messages), mutated-length
+//   (per frame)                         |                                              |
+//  decoder.bytes(buf): caller's buffer  | cap 0 / n-1 / n / n+1 / 32 KiB; n on both    | roundtrip, prefix (65536..200000), hostile-length,
+//   vs decodeAllocMax (64 KiB)          | sides of 65536; length prefixes up to 2^64-1 | mutated-length
+//  decoder.end(): 1-byte probe, then    | tails of 1, 2, 1023..1026, 2049, 5000 bytes  | tail [sizes new]
+//   1 KiB buffer                        |                                              |
+//  decoder.rest()                       | -                                            | NOT exercised: no caller in the package
+//  encoder over an io.Writer (SUPPLIED) | writer never fails (bytes.Buffer, websocket) | encode, reply-frame; a failing / short-writing
+//   state: err sticky                   |                                              | writer: NOT exercised (outside the property)
+//  remoteErr                            | nil / code 0 / codes 1..255 and int extremes | err-codes (all 256), err-empty-message [new],
+//                                       | / EMPTY message with a non-zero code         | roundtrip
+//  startCall (server entry)             | every request kind, unknown type codes, cut, | request-frame, hostile-length, garbage; frames
+//                                       | tail; frames PRODUCED BY THE REAL CLIENT     | from the real client: real-call [new]
+//  sendExchangeReq (client, real ws)    | every call kind incl. status (no server      | real-call [new]: frame on the wire = modelled frame
+//                                       | handler), empty body (dial)                  |
+//  transport.handleMessage (client)     | reply well-formed / cut inside the body /    | real-call [new] (all 8 call kinds); short header,
+//                                       | trailing bytes / error byte set              | wrong id/type: C03's scripted peer
+//  writeExchangeResp / encodeTo         | every reply kind, error byte                 | reply-frame (encoder), real-call (decoded by the client)
+//  handleRead                           | maxRead < 0, 0, around maxReadSize (2^20),   | read-size (avail 1, 100, 2^20+5)
+//                                       | up to 2^63-1; more/less available            |
+//  tunnel.Read                          | reply shorter / equal / longer than buffer   | read-reply-size (real transport)
+//  message objects                      | fresh per decode; readResponse/writeRequest  | cap; a message object decoded into twice: NOT
+//                                       | with a preset buffer (cap)                   | exercised (the package never does it)
+//  per-process state                    | none (codec is pure)                         | thousands of frames per child process
 package main
 
 import (
+	"context"
 	"encoding/hex"
 	"flag"
 	"fmt"
@@ -125,6 +160,9 @@ type Obs struct {
 	Name   string  `json:"name,omitempty"`
 	N      int     `json:"n"`
 	Code   int     `json:"code"`
+	RBytes  []Seg   `json:"rbytes,omitempty"`  // wrap: the string Hello returned / the bytes Read left in the buffer
+	RErr    string  `json:"rerr,omitempty"`    // real: what the client's call returned
+	RFields []Field `json:"rfields,omitempty"` // real: the reply as the caller sees it
 }
 
 type Case struct {
@@ -143,6 +181,13 @@ type Case struct {
 	BufLen  int    `json:"buflen"`
 	RepLen  int    `json:"replen"`
 	Avail  int     `json:"avail"`
+	Shape  string  `json:"shape,omitempty"`  // how the reader delivers the input (dec/start): one | half | dataerr | zero | chunk7 | one+dataerr
+	Sent   []Field `json:"sent,omitempty"`   // roundtrip / real: the fields that were encoded into Input
+	RName  string  `json:"rname,omitempty"`  // real: reply message
+	RSent  []Field `json:"rsent,omitempty"`  // real: the fields the peer answers with
+	Scen   string  `json:"scen,omitempty"`   // real: ok | cut | tail | ec
+	Cut    int     `json:"cut,omitempty"`    // real: bytes dropped from (cut) or appended to (tail) the reply
+	Reply  []Seg   `json:"reply,omitempty"`  // real: the reply frame the peer sent (filled in at run time)
 	Obs    *Obs    `json:"obs,omitempty"`
 }
 
@@ -390,6 +435,111 @@ func genCases(seed uint64, n int) []Case {
 		}
 	}
 
+	// Round 3.  Every call kind through the real client transport and the real
+	// server entry, replies well-formed / cut / with trailing bytes / error byte.
+	for _, s := range schemas {
+		pr, isReq := callPairs[s.name]
+		if !isReq {
+			continue
+		}
+		var rs schemaT
+		for _, x := range schemas {
+			if x.name == pr.reply {
+				rs = x
+			}
+		}
+		for _, scen := range []string{"ok", "ok", "tail", "cut", "cut", "ec"} {
+			sent := genFields(r, s, false)
+			for i := range sent { // what a Go client can hold: a read size is a len()
+				if sent[i].K == "int" {
+					sent[i].I = strconv.Itoa(r.Intn(1 << 16))
+				}
+			}
+			rsent := genFields(r, rs, false)
+			cp := 0
+			for i, k := range rs.kinds {
+				if k == "bytes" && rs.name == "readResponse" {
+					cp = caps(r, len(segBytes(rsent[i].B)))
+				}
+			}
+			add(Case{Stream: "real-call", Op: "real", Name: s.name, RName: rs.name, Sent: sent, RSent: rsent,
+				Scen: scen, Cut: 1 + r.Intn(12), Cap: cp})
+		}
+	}
+	// The package's own call sites: Hello, tunnel.Write / Read / Close.
+	{
+		bf := func(b []byte) Field { return Field{K: "bytes", B: segsOf(b)} }
+		uf := func(v uint64) Field { return Field{K: "u64", U: strconv.FormatUint(v, 10)} }
+		ifd := func(v int) Field { return Field{K: "int", I: strconv.Itoa(v)} }
+		errs := []Field{{K: "err", Nil: true}, {K: "err", Nil: true}, {K: "err", I: "10", B: segsOf([]byte("eof"))},
+			{K: "err", I: "7", B: segsOf([]byte("broken pipe"))}, {K: "err", I: "6", B: []Seg{}}}
+		for rep := 0; rep < 5; rep++ {
+			sess := hx.PickU64(r, u64Specials)
+			if rep%2 == 0 {
+				sess = r.U64()
+			}
+			e := errs[rep]
+			add(Case{Stream: "call-sites", Op: "wrap", Name: "hello", Sent: []Field{bf(r.Bytes(r.Intn(40)))},
+				RName: "helloResponse", RSent: []Field{bf(r.Bytes(r.Intn(60)))}})
+			payload := r.Bytes(r.Intn(300))
+			add(Case{Stream: "call-sites", Op: "wrap", Name: "write", Sent: []Field{uf(sess), bf(payload)},
+				RName: "writeResponse", RSent: []Field{ifd(r.Intn(len(payload) + 1)), e}})
+			bl := []int{0, 1, 64, 4096, 70000}[rep]
+			rl := bl
+			if bl > 0 && rep%2 == 1 {
+				rl = r.Intn(bl + 1)
+			}
+			add(Case{Stream: "call-sites", Op: "wrap", Name: "read", Sent: []Field{uf(sess), ifd(bl)},
+				RName: "readResponse", RSent: []Field{bf(r.Bytes(rl)), e}})
+			add(Case{Stream: "call-sites", Op: "wrap", Name: "close", Sent: []Field{uf(sess)},
+				RName: "closeResponse", RSent: []Field{e}})
+		}
+	}
+	// remoteErr with an empty message (code != 0, message ""), all reply kinds that carry one
+	for _, s := range errKinds {
+		for _, code := range []int{1, 10, 11, 255} {
+			fs := genFields(r, s, false)
+			for i, k := range s.kinds {
+				if k == "err" {
+					fs[i] = Field{K: "err", I: strconv.Itoa(code), B: []Seg{}}
+				}
+			}
+			body := encodeBody(s, fs)
+			add(Case{Stream: "err-empty-message", Op: "enc", Name: s.name, Fields: fs})
+			add(Case{Stream: "err-empty-message", Op: "dec", Name: s.name, End: true, Input: segsOf(body), Sent: fs})
+		}
+	}
+	// Trailing bytes of every size around decoder.end()'s buffers (1-byte probe, then 1 KiB reads), and
+	// every way a reader may deliver them
+	for _, s := range schemas {
+		fs := genFields(r, s, false)
+		body := encodeBody(s, fs)
+		for _, extra := range []int{1, 2, 1023, 1024, 1025, 1026, 2049, 5000} {
+			add(Case{Stream: "tail", Op: "dec", Name: s.name, End: true, Input: segsOf(append(append([]byte{}, body...), r.Bytes(extra)...))})
+		}
+		for _, shape := range sniproxy.VerifReaderShapes[1:] {
+			add(Case{Stream: "roundtrip", Op: "dec", Name: s.name, End: true, Shape: shape, Input: segsOf(body), Sent: fs})
+			add(Case{Stream: "tail", Op: "dec", Name: s.name, End: true, Shape: shape, Input: segsOf(append(append([]byte{}, body...), 0x55))})
+			add(Case{Stream: "tail", Op: "dec", Name: s.name, End: true, Shape: shape, Input: segsOf(append(append([]byte{}, body...), r.Bytes(1030)...))})
+			if len(body) > 0 {
+				add(Case{Stream: "prefix", Op: "dec", Name: s.name, End: true, Shape: shape, Input: segsOf(body[:len(body)-1])})
+				add(Case{Stream: "prefix", Op: "dec", Name: s.name, End: true, Shape: shape, Input: segsOf(body[:len(body)/2])})
+			}
+			if typ, ok := reqTypes[s.name]; ok {
+				frame := append(append(le64(uint64(typ)*77), byte(typ)), body...)
+				add(Case{Stream: "request-frame", Op: "start", Shape: shape, Input: segsOf(frame)})
+				add(Case{Stream: "tail", Op: "start", Shape: shape, Input: segsOf(append(append([]byte{}, frame...), 9))})
+				add(Case{Stream: "prefix", Op: "start", Shape: shape, Input: segsOf(frame[:len(frame)-1])})
+			}
+		}
+	}
+
+	shapeOf := func() string {
+		if r.Intn(3) == 0 {
+			return sniproxy.VerifReaderShapes[1+r.Intn(len(sniproxy.VerifReaderShapes)-1)]
+		}
+		return ""
+	}
 	for len(cs) < n {
 		s := schemas[r.Intn(len(schemas))]
 		big := r.Intn(12) == 0
@@ -405,7 +555,7 @@ func genCases(seed uint64, n int) []Case {
 		case c < 3: // encoder
 			add(Case{Stream: "encode", Op: "enc", Name: s.name, Fields: fs})
 		case c < 7: // well-formed body, any caller buffer
-			add(Case{Stream: "roundtrip", Op: "dec", Name: s.name, Cap: caps(r, blen), End: r.Bool(), Input: segsOf(body)})
+			add(Case{Stream: "roundtrip", Op: "dec", Name: s.name, Cap: caps(r, blen), End: r.Bool(), Input: segsOf(body), Sent: fs, Shape: shapeOf()})
 		case c < 10: // prefix
 			if len(body) == 0 {
 				continue
@@ -420,10 +570,10 @@ func genCases(seed uint64, n int) []Case {
 					}
 				}
 			}
-			add(Case{Stream: "prefix", Op: "dec", Name: s.name, Cap: caps(r, blen), End: r.Bool(), Input: segsOf(body[:cut])})
+			add(Case{Stream: "prefix", Op: "dec", Name: s.name, Cap: caps(r, blen), End: r.Bool(), Input: segsOf(body[:cut]), Shape: shapeOf()})
 		case c < 12: // tail
 			extra := r.Bytes(1 + r.Intn(5))
-			add(Case{Stream: "tail", Op: "dec", Name: s.name, Cap: caps(r, blen), End: true, Input: segsOf(append(append([]byte{}, body...), extra...))})
+			add(Case{Stream: "tail", Op: "dec", Name: s.name, Cap: caps(r, blen), End: true, Input: segsOf(append(append([]byte{}, body...), extra...)), Shape: shapeOf()})
 		case c < 14: // mutated length prefix
 			offs := lengthOffsets(s, fs)
 			if len(offs) == 0 {
@@ -456,7 +606,7 @@ func genCases(seed uint64, n int) []Case {
 			case 2:
 				frame[8] = byte(r.Intn(12)) // another type code, same body
 			}
-			add(Case{Stream: "request-frame", Op: "start", Input: segsOf(frame)})
+			add(Case{Stream: "request-frame", Op: "start", Input: segsOf(frame), Shape: shapeOf()})
 		case c < 19: // reply frame encoder
 			add(Case{Stream: "reply-frame", Op: "encreply", Name: s.name, Fields: fs,
 				ID: strconv.FormatUint(r.U64(), 10), Typ: r.Intn(256), Ec: r.Intn(3) * r.Intn(128)})
@@ -496,7 +646,11 @@ func runCase(c *Case) {
 	case "dec":
 		in := segBytes(c.Input)
 		var fs []sniproxy.VerifField
-		fs, o.Count, o.Err, o.Alloc = sniproxy.VerifDecodeMsg(c.Name, in, c.Cap, c.End)
+		if c.Shape != "" {
+			fs, o.Count, o.Err, o.Alloc = sniproxy.VerifDecodeMsgShaped(c.Name, in, c.Cap, c.End, c.Shape)
+		} else {
+			fs, o.Count, o.Err, o.Alloc = sniproxy.VerifDecodeMsg(c.Name, in, c.Cap, c.End)
+		}
 		if o.Err == "ok" {
 			o.Fields = fromShim(fs)
 		}
@@ -505,12 +659,20 @@ func runCase(c *Case) {
 		var fs []sniproxy.VerifField
 		var id uint64
 		var typ uint8
-		id, typ, o.Name, fs, o.Err, o.Alloc = sniproxy.VerifStartCall(in)
+		if c.Shape != "" {
+			id, typ, o.Name, fs, o.Err, o.Alloc = sniproxy.VerifStartCallShaped(in, c.Shape)
+		} else {
+			id, typ, o.Name, fs, o.Err, o.Alloc = sniproxy.VerifStartCall(in)
+		}
 		if o.Err == "ok" {
 			o.ID = strconv.FormatUint(id, 10)
 			o.Typ = int(typ)
 			o.Fields = fromShim(fs)
 		}
+	case "real":
+		realCall(c, o)
+	case "wrap":
+		wrapCall(c, o)
 	case "tread":
 		o.N, o.Err = tunnelRead(c.BufLen, c.RepLen)
 	case "hread":
@@ -518,6 +680,197 @@ func runCase(c *Case) {
 		avail := make([]byte, c.Avail)
 		o.N, o.Code, o.Alloc = sniproxy.VerifHandleRead(m, avail)
 		o.Err = "ok"
+	}
+}
+
+// callPairs: request message -> (type code, reply message), as endpoint_client.go pairs them.
+var callPairs = map[string]struct {
+	typ   int
+	reply string
+}{
+	"helloRequest": {1, "helloResponse"}, "dialRequest": {2, "dialResponse"}, "writeRequest": {3, "writeResponse"},
+	"readRequest": {4, "readResponse"}, "statusRequest": {5, "statusResponse"}, "closeRequest": {6, "closeResponse"},
+	"dialSideRequest": {8, "dialResponse"}, "dialSide2Request": {9, "dialResponse"},
+}
+
+// realCall sends one call of every kind through the REAL client transport
+// (sendExchangeReq over a websocket), hands the frame the peer received to
+// the REAL server entry (startCall), lets the peer answer with a reply frame
+// built by the real reply encoder (possibly cut short, with trailing bytes,
+// or with the error byte set), and records what the caller gets back from
+// transport.handleMessage.
+func realCall(c *Case, o *Obs) {
+	pair, err := rpcx.NewWSPair()
+	if err != nil {
+		o.Err = "other:" + err.Error()
+		return
+	}
+	defer pair.Close()
+	client := sniproxy.VerifNewClient(pair.A, nil)
+	pr := callPairs[c.Name]
+	frameCh := make(chan []byte, 1)
+	go func() {
+		typ, req, err := pair.B.ReadMessage()
+		if err != nil || typ != websocket.BinaryMessage || len(req) < 9 {
+			frameCh <- nil
+			return
+		}
+		frameCh <- req
+		var id uint64
+		for i := 0; i < 8; i++ {
+			id |= uint64(req[i]) << (8 * i)
+		}
+		ec := 0
+		if c.Scen == "ec" {
+			ec = 1 + c.Cut%255
+		}
+		frame, _ := sniproxy.VerifEncodeReply(id, req[8], uint8(ec), c.RName, toShim(c.RSent))
+		switch c.Scen {
+		case "cut":
+			k := c.Cut
+			if k > len(frame)-10 {
+				k = len(frame) - 10
+			}
+			if k > 0 {
+				frame = frame[:len(frame)-k]
+			} else {
+				k = 0
+			}
+			c.Cut = k // what was really dropped
+		case "tail":
+			for i := 0; i < c.Cut; i++ {
+				frame = append(frame, byte(0xa0+i))
+			}
+		}
+		c.Reply = segsOf(frame)
+		pair.B.WriteMessage(websocket.BinaryMessage, frame)
+	}()
+	type res struct {
+		fs  []sniproxy.VerifField
+		err error
+	}
+	done := make(chan res, 1)
+	go func() {
+		ctx, cancel := context.WithTimeout(context.Background(), 8*time.Second)
+		defer cancel()
+		reqName := c.Name
+		fs, err := client.Call(ctx, byte(pr.typ), reqName, toShim(c.Sent), c.RName, c.Cap)
+		done <- res{fs, err}
+	}()
+	select {
+	case r := <-done:
+		o.RErr = sniproxy.VerifCallErrKind(r.err)
+		if r.err == nil {
+			o.RFields = fromShim(r.fs)
+		}
+	case <-time.After(10 * time.Second):
+		o.RErr = "hang"
+	}
+	select {
+	case frame := <-frameCh:
+		if frame == nil {
+			o.Err = "other:no request frame"
+			return
+		}
+		c.Input = segsOf(frame)
+		var fs []sniproxy.VerifField
+		var id uint64
+		var typ uint8
+		id, typ, o.Name, fs, o.Err, o.Alloc = sniproxy.VerifStartCall(frame)
+		if o.Err == "ok" {
+			o.ID = strconv.FormatUint(id, 10)
+			o.Typ = int(typ)
+			o.Fields = fromShim(fs)
+		}
+	case <-time.After(2 * time.Second):
+		o.Err = "other:no request frame"
+	}
+}
+
+// wrapCall goes through the package's OWN call sites - endpointClient.Hello,
+// tunnel.Write / Read / Close - instead of a raw call: which request they put
+// on the wire for their arguments and what they return for the reply.
+// c.Name: hello | write | read | close; c.Sent: the arguments (hello: [msg];
+// write: [session, payload]; read: [session, buflen]; close: [session]).
+func wrapCall(c *Case, o *Obs) {
+	pair, err := rpcx.NewWSPair()
+	if err != nil {
+		o.Err = "other:" + err.Error()
+		return
+	}
+	defer pair.Close()
+	client := sniproxy.VerifNewClient(pair.A, nil)
+	frameCh := make(chan []byte, 1)
+	go func() {
+		typ, req, err := pair.B.ReadMessage()
+		if err != nil || typ != websocket.BinaryMessage || len(req) < 9 {
+			frameCh <- nil
+			return
+		}
+		frameCh <- req
+		var id uint64
+		for i := 0; i < 8; i++ {
+			id |= uint64(req[i]) << (8 * i)
+		}
+		frame, _ := sniproxy.VerifEncodeReply(id, req[8], 0, c.RName, toShim(c.RSent))
+		c.Reply = segsOf(frame)
+		pair.B.WriteMessage(websocket.BinaryMessage, frame)
+	}()
+	args := toShim(c.Sent)
+	type res struct {
+		n   int
+		b   []byte
+		err error
+	}
+	done := make(chan res, 1)
+	go func() {
+		ctx, cancel := context.WithTimeout(context.Background(), 8*time.Second)
+		defer cancel()
+		switch c.Name {
+		case "hello":
+			s, err := client.Hello(ctx, string(args[0].B))
+			done <- res{0, []byte(s), err}
+		case "write":
+			n, err := client.Tunnel(args[0].U).Write(args[1].B)
+			done <- res{n, nil, err}
+		case "read":
+			buf := make([]byte, int(args[1].I))
+			n, err := client.Tunnel(args[0].U).Read(buf)
+			if n < 0 || n > len(buf) {
+				done <- res{n, nil, err}
+			} else {
+				done <- res{n, buf[:n], err}
+			}
+		case "close":
+			done <- res{0, nil, client.Tunnel(args[0].U).Close()}
+		}
+	}()
+	select {
+	case r := <-done:
+		o.RErr = sniproxy.VerifCallErrKind(r.err)
+		o.N = r.n
+		o.RBytes = segsOf(r.b)
+	case <-time.After(10 * time.Second):
+		o.RErr = "hang"
+	}
+	select {
+	case frame := <-frameCh:
+		if frame == nil {
+			o.Err = "other:no request frame"
+			return
+		}
+		c.Input = segsOf(frame)
+		var fs []sniproxy.VerifField
+		var id uint64
+		var typ uint8
+		id, typ, o.Name, fs, o.Err, o.Alloc = sniproxy.VerifStartCall(frame)
+		if o.Err == "ok" {
+			o.ID = strconv.FormatUint(id, 10)
+			o.Typ = int(typ)
+			o.Fields = fromShim(fs)
+		}
+	case <-time.After(2 * time.Second):
+		o.Err = "other:no request frame"
 	}
 }
 
